@@ -14,3 +14,17 @@ pub fn vf_vec_to_hashset(v: Vec<usize>) -> (r: HashSet<usize>)
 pub fn vf_hashset_retain_contains(s: &mut HashSet<usize>, o: &HashSet<usize>, keep_contained: bool)
     ensures final(s)@ == (if keep_contained { old(s)@.intersect(o@) } else { old(s)@.difference(o@) })
 { s.retain(|i| o.contains(i) == keep_contained) }
+// `S.iter().copied().collect_vec()` on a HashSet<u32>: every element exactly once, unspecified order
+#[verifier::external_body]
+pub fn vf_hashset_u32_to_vec(s: &HashSet<u32>) -> (r: Vec<u32>)
+    ensures r@.no_duplicates(), forall|i: u32| r@.contains(i) <==> s@.contains(i)
+{ s.iter().copied().collect() }
+// `V.sort_unstable()` on Vec<u32>: a non-decreasing permutation of the input
+#[verifier::external_body]
+pub fn vf_sort_unstable_u32(v: &mut Vec<u32>)
+    ensures
+        final(v)@.len() == old(v)@.len(),
+        forall|a: int, b: int| 0 <= a < b < final(v)@.len() ==> final(v)@[a] <= final(v)@[b],
+        forall|x: u32| final(v)@.contains(x) <==> old(v)@.contains(x),
+        old(v)@.no_duplicates() ==> final(v)@.no_duplicates(),
+{ v.sort_unstable() }
